@@ -388,7 +388,7 @@ def main():
                 if fn['external']:
                     obligations.append({'name': name, 'backend': 'assumed-in-verus', 'discharged_by': fn['discharged_by'], 'status': 'assumed'})
                 else:
-                    obligations.append({'name': name, 'backend': 'verus', 'status': 'discharged', 'file': fn['rel'], 'line': t['line']})
+                    obligations.append({'name': name, 'backend': 'verus', 'status': 'discharged', 'file': fn['rel'], 'line': t['line'], 'fname': fn['fname']})
             if not fn['external'] and fn['has_body']:
                 obligations.append({'name': '%s::%s body-safety (no overflow/oob/unwrap/assert failure, callee preconditions)' % (fn['rel'], fn['fname']),
                                     'backend': 'verus', 'status': 'discharged', 'file': fn['rel'], 'fn': fn['fname']})
@@ -497,8 +497,10 @@ def main():
         say('UNDECIDED property=%s %s' % (pid, via_note))
         return 2
     # counterexample search for failed Verus obligations that have a Kani twin on the same real function
-    twin_names = sorted(set(kani_run.TWINS[f['fn'].split('::')[-1]] for f in my_fails
-                            if f.get('fn') and f['fn'].split('::')[-1] in kani_run.TWINS))
+    def twin_of(fnq):
+        # fnq = 'file.rs::fname'; twins are keyed by 'file.rs::fname' or by the bare function name
+        return kani_run.TWINS.get(fnq) or kani_run.TWINS.get(fnq.split('::')[-1])
+    twin_names = sorted(set(twin_of(f['fn']) for f in my_fails if f.get('fn') and twin_of(f['fn'])))
     have = set(h['name'] for h in kres.get('harnesses', []))
     twin_names = [t for t in twin_names if t not in have]
     if failed and twin_names:
@@ -507,8 +509,9 @@ def main():
             if not h['ok'] and not h.get('undecided'):
                 txt = k2.get('counterexamples', {}).get('kani %s' % h['name'])
                 for o in failed:
-                    fnn = (o.get('fn') or o['name'].split('::')[1].split(' ')[0] if '::' in o['name'] else '')
-                    if o['backend'] == 'verus' and kani_run.TWINS.get(fnn) == h['name'] and txt:
+                    fnn = o.get('fn') or o.get('fname') or ''
+                    fq = '%s::%s' % (o.get('file') or o['name'].split('::')[0], fnn)
+                    if o['backend'] == 'verus' and twin_of(fq) == h['name'] and txt:
                         kres.setdefault('counterexamples', {})[o['name']] = 'Kani twin harness on the same real function:\n' + txt
     # a definite violation from any back end is reported even when another back end is undecided
     if not failed:
